@@ -37,6 +37,12 @@ def run_mutant(m, tier, run_tests, seed):
             if src.count(m["old"]) < 1:
                 return dict(name=m["name"], status="PATCH-DOES-NOT-APPLY")
             open(path, "w").write(src.replace(m["old"], m["new"], 1))
+            for f2, old2, new2 in m.get("also", []):
+                path2 = os.path.join(repo, f2)
+                src2 = open(path2).read()
+                if old2 not in src2:
+                    return dict(name=m["name"], status="PATCH-DOES-NOT-APPLY")
+                open(path2, "w").write(src2.replace(old2, new2, 1))
         tests_ok = None
         if run_tests:
             try:
